@@ -36,7 +36,8 @@ META = {
     'rule': ("cases = monomer lists (1-5 entries, counts 1-4); token streams of 1-12 arbitrary names x random line breaking and "
              "padding; letter streams of 1-30 over DNA/RNA/protein alphabets x random line breaking, .fasta and .ig (linear and "
              "circular, incl. unknown letters), fasta comments naming PROTEIN with DNA / RNA, a fixed history of plain and mixed records in one process; gen_seq with 1-3 macros (levels 1-4, branching 1-3) x sequences of 1-4 blocks x "
-             "connects x terminal renamings x labels; non-trivial = >= 3 residues and (>= 2 lines or >= 2 blocks); distinct by input text"),
+             "connects x terminal renamings x labels; non-trivial = >= 3 residues and (>= 2 lines or >= 2 blocks); distinct by input text"
+             "; directed / added families (waves 10-12): comments naming PROTEIN with DNA / RNA; arbitrary .ig titles"),
 }
 
 PRELUDE = """From Coq Require Import String Ascii List Bool Arith.
